@@ -323,3 +323,30 @@ M.contract(P_FIDP,
                                   and _one_line_consumed(source, orig, old)),
                'a-directive-names-one-file': lambda result: result is None or len(result.files_to_include) == 1,
            }, raises_only=())
+
+
+# ============================================================================== the engine's model of s.split(ch) / del xs[-1]
+# pyvc.mlist.split_all / _joins_without_last (used by the proof of parse_and_compute_source) state facts of CPython's
+# str.split / str.join; here they are checked against CPython on all small strings.
+
+@M.check('facts of the model of str.split(ch) and of removing the last item, against CPython')
+def _split_model_facts(ctx):
+    import itertools
+    sep = '\n'
+    bad = []
+    n = 0
+    for k in range(0, 7):
+        for cs in itertools.product('a \n', repeat=k):
+            s = ''.join(cs)
+            xs = s.split(sep)
+            n += 1
+            ok = len(xs) == s.count(sep) + 1 and sep.join(xs) == s and all(sep not in x for x in xs) \
+                and (s == xs[-1] if len(xs) == 1 else s.endswith(sep + xs[-1])) \
+                and ((xs[-1] == '') == (s == '' or s.endswith(sep))) \
+                and (len(xs) < 2 or sep.join(xs) == sep.join(xs[:-1]) + sep + xs[-1]) \
+                and (len(xs) != 1 or (sep.join(xs[:-1]) == '' and sep.join(xs) == xs[-1]))
+            if not ok:
+                bad.append(s)
+    ctx.obligation('split: count + 1 items without the separator, join gives the string back, the last item follows the '
+                   'last separator; join of all but the last item', not bad, 'enumeration',
+                   detail={'strings': n, 'failures': bad[:5]})
